@@ -152,8 +152,25 @@ def run_case(case):
         return res
 
     # ---- routing
-    full = case["mode"] == "route-full"
+    rekey = None
+    if case["mode"] == "route-rekey":
+        # phase 1 routes with the default bytes; then every node is re-keyed the documented way (set the attributes,
+        # re-assign node_address) and the same pairs are routed again under the new bytes
+        rekey = case["rekey"]
+    full = case["mode"] in ("route-full", "route-rekey")
     try:
+      for phase in ((0, 1) if rekey else (0,)):
+        if phase == 1:
+            px, sx, mc = rekey["prefix"], tuple(rekey["suffix"]), bool(rekey["multicast"])
+            for a in pop:
+                n = nodes[a][0]
+                n.address_prefix = bytearray([px])
+                n.address_suffix = bytearray(sx)
+                n.allow_multicast = mc
+                n.node_address = a
+            med.build_index()
+            sim.advance(2 * MS)
+            tag = "/after-rekey"
         for s in case["srcs"]:
             for d in pop:
                 if d == s:
@@ -277,7 +294,10 @@ def _drawn_strategy():
             if c not in pop:
                 pop.append(c)
         cfg = {"prefix": bs[0], "suffix": bs[1:], "multicast": draw(st.booleans()), "population": sorted(pop)}
-        mode = draw(st.sampled_from(["route-full", "route-full", "registers", "multicast"]))
+        mode = draw(st.sampled_from(["route-full", "route-full", "registers", "multicast", "route-rekey"]))
+        if mode == "route-rekey":
+            return {"cfg": dict(DEFAULT_CFG, population=sorted(pop)), "mode": mode, "srcs": sorted(pop),
+                    "rekey": {"prefix": bs[0], "suffix": bs[1:], "multicast": cfg["multicast"]}}
         return {"cfg": cfg, "mode": mode, "srcs": sorted(pop) if mode != "registers" else []}
 
     return case()
@@ -290,16 +310,25 @@ def _drawn_all_strategy():
         lambda m: {"cfg": {"prefix": bs[0], "suffix": bs[1:], "multicast": m, "population": "all"}, "mode": "registers", "srcs": []}))
 
 
+def _rekey_fixed():
+    pop = [0, 0o1, 0o2, 0o11, 0o21, 0o12, 0o111, 0o211]
+    for px, sx, mc in ((0x5A, [0xA1, 0xB2, 0xC3, 0xD4, 0xE5, 0xF6], True), (0x11, [0x22, 0x33, 0x44, 0x55, 0x66, 0x77], False),
+                       (0xCC, list(netaddr.DEFAULT_SUFFIX), False)):
+        yield {"cfg": dict(DEFAULT_CFG, population=pop), "mode": "route-rekey", "srcs": pop, "rekey": {"prefix": px, "suffix": sx, "multicast": mc}}
+
+
 def parts(tier):
     if tier == "quick":
         return [Part("registers+multicast", "enum", _fixed(True), exhaustive=True),
                 Part("first-hop-all-pairs", "enum", _blocks("route-first", DEFAULT_CFG, 48), exhaustive=True),
                 Part("full-delivery-sample", "enum", _blocks("route-full", DEFAULT_CFG, 16, take=3)),
                 Part("full-delivery-sample-multicast-off", "enum", _blocks("route-full", dict(DEFAULT_CFG, multicast=False), 16, take=1)),
+                Part("rekey-after-traffic", "enum", _rekey_fixed, exhaustive=True),
                 Part("drawn-bytes-subtrees", "gen", _drawn_strategy, n=64),
                 Part("drawn-bytes-all-nodes", "gen", _drawn_all_strategy, n=16)]
     return [Part("registers+multicast", "enum", _fixed(False), exhaustive=True),
             Part("full-delivery-all-pairs", "enum", _blocks("route-full", DEFAULT_CFG, 96), exhaustive=True),
             Part("full-delivery-all-pairs-multicast-off", "enum", _blocks("route-full", dict(DEFAULT_CFG, multicast=False), 96), exhaustive=True),
+            Part("rekey-after-traffic", "enum", _rekey_fixed, exhaustive=True),
             Part("drawn-bytes-subtrees", "gen", _drawn_strategy, n=3000),
             Part("drawn-bytes-all-nodes", "gen", _drawn_all_strategy, n=300)]
